@@ -14,6 +14,7 @@ import (
 	"path/filepath"
 	"strings"
 	"sync"
+	"sync/atomic"
 	"time"
 
 	"github.com/superfly/litefs"
@@ -173,6 +174,7 @@ type sLease struct {
 	acquired  bool
 	ch        chan uint64
 	handoffOK bool
+	onClose   func() // runs when the lease is destroyed
 }
 
 func newLease(ttl time.Duration) *sLease {
@@ -218,8 +220,12 @@ func (x *sLease) Handoff(ctx context.Context, nodeID uint64) error {
 func (x *sLease) HandoffCh() <-chan uint64 { return x.ch }
 func (x *sLease) Close() error {
 	x.mu.Lock()
-	defer x.mu.Unlock()
 	x.closed, x.closedAt = true, time.Now()
+	probe := x.onClose
+	x.mu.Unlock()
+	if probe != nil {
+		probe()
+	}
 	return nil
 }
 
@@ -426,13 +432,14 @@ func foreignStream(c *common.Ctx, root string) {
 
 // ---------- the primary's loop ----------
 type pScript struct {
-	Name    string   `json:"name"`
-	Renew   []string `json:"renew"`           // answers of successive Renew calls
-	At      int      `json:"at_ms,omitempty"` // when the external event happens
-	Event   string   `json:"event,omitempty"` // demote handoff-connected handoff-unconnected handoff-refused shutdown
-	Then    string   `json:"then,omitempty"`  // a second event 300 ms after the first: demote shutdown
-	Model   string   `json:"model"`           // the model's event list
-	WantEnd int      `json:"want_end_ms"`     // model: ms after the last successful renewal at which the role ends (0: not by renewal)
+	Name      string   `json:"name"`
+	Renew     []string `json:"renew"`           // answers of successive Renew calls
+	At        int      `json:"at_ms,omitempty"` // when the external event happens
+	Event     string   `json:"event,omitempty"` // demote handoff-connected handoff-unconnected handoff-refused shutdown
+	Then      string   `json:"then,omitempty"`  // a second event 300 ms (or ThenAfter ms) after the first: demote shutdown
+	ThenAfter int      `json:"then_after_ms,omitempty"`
+	Model     string   `json:"model"`       // the model's event list
+	WantEnd   int      `json:"want_end_ms"` // model: ms after the last successful renewal at which the role ends (0: not by renewal)
 }
 
 func runPrimary(c *common.Ctx, cf *common.CaseFile, sc pScript, root string, idx int, wg *sync.WaitGroup, mu *sync.Mutex) {
@@ -466,15 +473,29 @@ func runPrimary(c *common.Ctx, cf *common.CaseFile, sc pScript, root string, idx
 		mu.Unlock()
 		return
 	}
+	pctx := s.PrimaryCtx(context.Background())
+	var primaryAtDestroy int32
 	lease.mu.Lock()
 	lease.script = sc.Renew
 	if sc.Event == "handoff-refused" {
 		lease.handoffOK = false
 	}
+	// once its lease is destroyed the node is no longer primary: a moment after Close() was called (the role is given
+	// up first, and the demote delay of this scenario is 50 ms) it must not report the role any more
+	lease.onClose = func() {
+		go func() {
+			time.Sleep(15 * time.Millisecond)
+			if s.IsPrimary() && pctx.Err() == nil {
+				atomic.StoreInt32(&primaryAtDestroy, 1)
+			}
+		}()
+	}
 	lease.mu.Unlock()
-	pctx := s.PrimaryCtx(context.Background())
 	var sub *litefs.ChangeSetSubscriber
 	gotLease := make(chan string, 1)
+	if sc.Event == "handoff-unread" {
+		sub = s.SubscribeChangeSet(0x77) // a connected target whose stream handler never takes the lease id
+	}
 	if sc.Event == "handoff-connected" || sc.Event == "handoff-refused" {
 		sub = s.SubscribeChangeSet(0x77)
 		go func() {
@@ -491,7 +512,7 @@ func runPrimary(c *common.Ctx, cf *common.CaseFile, sc pScript, root string, idx
 		switch sc.Event {
 		case "demote":
 			s.Demote()
-		case "handoff-connected", "handoff-refused":
+		case "handoff-connected", "handoff-refused", "handoff-unread":
 			handoffErr = s.Handoff(context.Background(), 0x77)
 		case "handoff-unconnected":
 			handoffErr = s.Handoff(context.Background(), 0x99)
@@ -499,7 +520,11 @@ func runPrimary(c *common.Ctx, cf *common.CaseFile, sc pScript, root string, idx
 			go s.Close()
 		}
 		if sc.Then != "" {
-			time.Sleep(300 * time.Millisecond)
+			d := 300
+			if sc.ThenAfter > 0 {
+				d = sc.ThenAfter
+			}
+			time.Sleep(time.Duration(d) * time.Millisecond)
 			switch sc.Then {
 			case "demote":
 				s.Demote()
@@ -555,6 +580,12 @@ func runPrimary(c *common.Ctx, cf *common.CaseFile, sc pScript, root string, idx
 		if exit == 3 && closed {
 			c.Violate(key+":handoff-destroyed", "the lease was destroyed although it was handed off", rep)
 		}
+	}
+	if atomic.LoadInt32(&primaryAtDestroy) != 0 {
+		c.Violate(key+":primary-after-destroy", "15 ms after its lease was destroyed the node still reports the primary role (IsPrimary, primary-scoped context live)", rep)
+	}
+	if sc.Event == "handoff-unread" && !end.IsZero() && !closed {
+		c.Violate(key+":lease-lost", "the handoff target never took the lease id, yet the node gave up the role and did not destroy the lease: the lease is held by nobody", rep)
 	}
 	if sc.Event == "handoff-unconnected" && (handoffErr == nil || !s.IsPrimary() && end.Before(t0.Add(time.Duration(sc.At+300)*time.Millisecond))) {
 		c.Violate(key+":handoff-to-stranger", fmt.Sprintf("a handoff to a node that is not connected was accepted (err=%v, still primary=%v)", handoffErr, s.IsPrimary()), rep)
@@ -761,6 +792,8 @@ func Run(c *common.Ctx) error {
 		// the lease service accepts the handoff, but passing the lease on fails (the last renewal before sending it errors)
 		{Name: "handoff-not-completed-then-demote", Renew: []string{"err"}, At: 200, Event: "handoff-connected", Then: "demote", Model: "PHandoff false true; PDemote"},
 		{Name: "handoff-not-completed-then-shutdown", Renew: []string{"err"}, At: 200, Event: "handoff-connected", Then: "shutdown", Model: "PHandoff false true; PShutdown"},
+		// the target is connected but never takes the lease id: the attempt times out (5 s) and the node stays an ordinary primary
+		{Name: "handoff-unread-then-demote", At: 200, Event: "handoff-unread", Then: "demote", ThenAfter: 5600, Model: "PHandoff false true; PDemote"},
 		{Name: "handoff-refused-then-expired", Renew: []string{"ok", "expired"}, At: 200, Event: "handoff-refused", Model: "PHandoff true false; PRenewOk; PRenewExpired", WantEnd: 1500},
 	}
 	var wg sync.WaitGroup
